@@ -104,6 +104,15 @@ func (c *ColArr[T]) DecodeColumn(r *Reader, rows int) error {
 	if err := c.Offsets.DecodeColumn(r, rows); err != nil {
 		return errors.Wrap(err, "read offsets")
 	}
+	// Offsets are cumulative, so they should never decrease. Otherwise,
+	// row accessors will go out of bounds of data column.
+	var prev uint64
+	for i, offset := range c.Offsets {
+		if offset < prev {
+			return errors.Errorf("offset [%d] (%d) is less than previous (%d)", i, offset, prev)
+		}
+		prev = offset
+	}
 	var size int
 	if l := len(c.Offsets); l > 0 {
 		// Pick last offset as total size of "elements" column.
